@@ -8,6 +8,7 @@ import (
 	"sort"
 	"strings"
 	"sync"
+	"sync/atomic"
 
 	"github.com/ThreeDotsLabs/watermill"
 	"github.com/ThreeDotsLabs/watermill/message"
@@ -30,11 +31,14 @@ func init() {
 	vlib.Register(&vlib.Prop{
 		ID:    "C11",
 		Level: "exploration",
-		Cases: func(tier string) int { return forcedCases() + vlib.TierN(tier, 600, 120000) + longCases(tier) },
+		Cases: func(tier string) int {
+			return forcedCases() + vlib.TierN(tier, 600, 120000) + longCases(tier) + pairCases(tier)
+		},
 		Rule: "forced part: for each hook point of Publish (after closed check, topic lock taken, persisted), Subscribe (registered in wait group, locks taken, before replay, before registration) and the send loop, " +
 			"operation A is parked there while the opposite operation B (Subscribe resp. Publish) runs to completion or blocks behind A (decided by the quiescence detector), then A is released; grid x buffer {0,1,4} x blocking x {0,1,3} messages published before x {with/without an older subscription}, plus 1..2 messages after. " +
 			"burst part (every third non-forced case): 24 fresh topics per case; on each, 3..8 publishers released by a barrier publish as the very first operations on that topic (first use of the per-topic lock and of the topic's log), optionally racing a first Subscribe, then a late subscription must be replayed every accepted message exactly once. " +
-			"long-log part (last 32 / 640 cases): a topic log of 1030..4200 messages (written in batches of up to 700, one batch Publish call of 1500..3000 messages in a third of the cases) is replayed to 1..3 subscriptions started together with 1..3 publishers that publish 20..80 more messages one by one and in small batches while the replays run; a late subscription afterwards; sizes chosen around powers of two (1024, 2048, 4096). " +
+			"publish-pair part (last 36 / 360 cases): Publish A is parked at one of its three hook points on a topic that holds 0 or 1 messages, a second Publish B of the same topic runs to completion or blocks behind A (quiescence), A is released, then an early (subscribed before) and a late subscription must both have every accepted message exactly once; x buffer {0,1,4} x blocking. " +
+			"long-log part (32 / 640 cases before those): a topic log of 1030..4200 messages (written in batches of up to 700, one batch Publish call of 1500..3000 messages in a third of the cases) is replayed to 1..3 subscriptions started together with 1..3 publishers that publish 20..80 more messages one by one and in small batches while the replays run; a late subscription afterwards; sizes chosen around powers of two (1024, 2048, 4096). " +
 			"random part: persistent GoChannel, 1..2 topics, 1..4 publishers x 1..10 messages (batches 1..3), 1..5 always-acking subscriptions started at random moments, yield/delay injection at the hook points. " +
 			"Oracle at quiescence: for every subscription the multiset of received messages equals the set of successfully published messages of its topic, every count exactly 1. " +
 			"In the forced and burst classes messages are identified by their payload and the UUIDs are unique, all empty or all equal (Message.UUID is not an identity). " +
@@ -52,6 +56,9 @@ func longCases(tier string) int { return vlib.TierN(tier, 32, 640) }
 func run(e *vlib.Env) vlib.Result {
 	if e.Idx < forcedCases() {
 		return forced(e)
+	}
+	if e.Idx >= forcedCases()+vlib.TierN(e.Tier, 600, 120000)+longCases(e.Tier) {
+		return publishPair(e)
 	}
 	if e.Idx >= forcedCases()+vlib.TierN(e.Tier, 600, 120000) {
 		return longLog(e)
@@ -427,7 +434,7 @@ func burst(e *vlib.Env) vlib.Result {
 	uuidMode, uuidOf := uuidFn(r, e.ID())
 	res := vlib.Result{Class: fmt.Sprintf("burst/buf%d", cfg.OutputChannelBuffer), Spec: "uuids=" + uuidMode}
 	ps := gochannel.NewGoChannel(cfg, watermill.NopLogger{})
-	const topics = 24
+	const topics = 40
 	type tstate struct {
 		topic    string
 		mu       sync.Mutex
@@ -460,6 +467,17 @@ func burst(e *vlib.Env) vlib.Result {
 		npubTotal += npub
 		withSub := r.Chance(0.3)
 		barrier := make(chan struct{})
+		// behind the barrier a spin gate: the publishers make their first call on the topic at the same instant
+		var ready atomic.Int32
+		gate := func() {
+			<-barrier
+			ready.Add(1)
+			for spin := 0; int(ready.Load()) < npub && spin < 100000; spin++ {
+				if spin%128 == 127 {
+					runtime.Gosched()
+				}
+			}
+		}
 		var wg sync.WaitGroup
 		for p := 0; p < npub; p++ {
 			wg.Add(1)
@@ -467,7 +485,7 @@ func burst(e *vlib.Env) vlib.Result {
 				defer wg.Done()
 				u := fmt.Sprintf("%s/m%d", st.topic, p)
 				m := message.NewMessage(uuidOf(u), []byte(u))
-				<-barrier
+				gate()
 				if err := ps.Publish(st.topic, m); err == nil {
 					st.mu.Lock()
 					st.accepted = append(st.accepted, u)
@@ -657,6 +675,110 @@ func longLog(e *vlib.Env) vlib.Result {
 	res.Spec = fmt.Sprintf("old=%d oneCall=%v subs=%d pubs=%d live=%d uuids=%s", nOld, oneCall, nsub, npub, live, uuidMode)
 	res.Sig = vlib.Sig("long-log", cfg.OutputChannelBuffer, nOld, oneCall, nsub, npub, live, e.Idx)
 	res.Sample = map[string]any{"spec": res.Spec}
+	cd := make(chan struct{})
+	go func() { ps.Close(); close(cd) }()
+	vlib.WaitClosed(cd, vlib.WD)
+	cdone := make(chan struct{})
+	go func() { consumers.Wait(); close(cdone) }()
+	vlib.WaitClosed(cdone, vlib.WD)
+	return res
+}
+
+func pairCases(tier string) int { return vlib.TierN(tier, 36, 360) }
+
+// publishPair: two Publish calls on one topic, the first parked inside; whatever serialises publishers of a topic (and
+// the read-modify-write of its log) is exercised with the topic fresh or nearly fresh.
+func publishPair(e *vlib.Env) vlib.Result {
+	j := e.Idx - (forcedCases() + vlib.TierN(e.Tier, 600, 120000) + longCases(e.Tier))
+	point := forcedPoints[j%3]
+	j /= 3
+	buf := []int64{0, 1, 4}[j%3]
+	j /= 3
+	blocking := j%2 == 1
+	j /= 2
+	before := j % 2
+	withEarly := e.R.Bool()
+	spec := fmt.Sprintf("pair park=%s buf=%d blocking=%v before=%d earlySub=%v", point, buf, blocking, before, withEarly)
+	res := vlib.Result{Class: "publish-pair/" + strings.TrimPrefix(point, "gochannel."), Spec: spec}
+	ps := gochannel.NewGoChannel(gochannel.Config{OutputChannelBuffer: buf, Persistent: true, BlockPublishUntilSubscriberAck: blocking}, watermill.NopLogger{})
+	topic := e.ID() + "/pair"
+	ctl := vlib.NewCtl(e.R.Uint64(), 0, 0)
+	defer ctl.Uninstall()
+	ctl.Filter(func(p, a, b string) bool { return a == "" || strings.HasPrefix(a, e.ID()) })
+	var accepted []string
+	var accMu sync.Mutex
+	publish := func(u string) {
+		if err := ps.Publish(topic, message.NewMessage(u, []byte(u))); err == nil {
+			accMu.Lock()
+			accepted = append(accepted, u)
+			accMu.Unlock()
+		}
+	}
+	var consumers sync.WaitGroup
+	var recs []*rec
+	var recsMu sync.Mutex
+	subscribe := func() {
+		rc := &rec{got: map[string]int{}}
+		ch, err := ps.Subscribe(context.Background(), topic)
+		if err != nil {
+			return
+		}
+		recsMu.Lock()
+		recs = append(recs, rc)
+		recsMu.Unlock()
+		consumers.Add(1)
+		go func() {
+			defer consumers.Done()
+			for m := range ch {
+				rc.add(string(m.Payload))
+				m.Ack()
+			}
+		}()
+	}
+	if withEarly {
+		subscribe()
+	}
+	for k := 0; k < before; k++ {
+		publish(fmt.Sprintf("%s/before%d", e.ID(), k))
+	}
+	vlib.Settle(vlib.WD)
+	park := ctl.ParkAt(point, func(a, b string) bool { return true }, 0)
+	aDone, bDone := make(chan struct{}), make(chan struct{})
+	go func() { defer close(aDone); publish(e.ID() + "/A") }()
+	vlib.WaitUntil(func() bool { return park.HasArrived() || vlib.IsClosed(aDone) }, vlib.WD)
+	reached := park.HasArrived()
+	go func() { defer close(bDone); publish(e.ID() + "/B") }()
+	o2, _ := vlib.WaitClosed(bDone, vlib.WD)
+	bBlocked := o2 == vlib.Stuck
+	park.Release()
+	for _, ch := range []chan struct{}{aDone, bDone} {
+		if o, d := vlib.WaitClosed(ch, vlib.WD); o == vlib.Stuck {
+			res.Fail("operation-stuck", "a Publish call of the pair never returned after the release (%s)", spec)
+			res.Witness = d
+		} else if o == vlib.Inconclusive {
+			res.Inconclusive("a Publish call of the pair did not finish")
+		}
+	}
+	if res.Verdict == "" {
+		subscribe() // late subscription: the whole log
+		if o, _ := vlib.Settle(vlib.WD); o == vlib.Inconclusive {
+			res.Inconclusive("not quiescent")
+		}
+	}
+	if res.Verdict == "" {
+		judge(&res, recs, &recsMu, accepted, &accMu)
+	}
+	res.Hooks = ctl.Counts()
+	res.NonTrivial = reached
+	res.Sig = vlib.Sig(spec, bBlocked, ctl.Fingerprint())
+	res.Count("pair_reached", b2i(reached))
+	res.Count("pair_second_publish_blocked_behind_first", b2i(bBlocked))
+	res.Count("pair_second_publish_completed_while_first_parked", b2i(reached && !bBlocked))
+	if !reached && res.Verdict == "" {
+		res.Verdict = vlib.Unreached
+		res.Reason = "park point not reached: " + spec
+	}
+	res.Sample = map[string]any{"spec": spec, "reached": reached, "second_blocked": bBlocked}
 	cd := make(chan struct{})
 	go func() { ps.Close(); close(cd) }()
 	vlib.WaitClosed(cd, vlib.WD)
